@@ -1,5 +1,5 @@
 (* C17 -- lemmas about the model of the grid decorators (Model/C17.v). *)
-From Coq Require Import ZArith List Bool Reals Lra Lia Arith.
+From Coq Require Import ZArith List Bool Reals Lra Lia Arith QArith.
 From PAV Require Import Base.Res Base.Check Base.NumOps Model.C17.
 Import ListNotations.
 
@@ -598,3 +598,137 @@ Proof.
   destruct (@relocate_arg ROps (Some rmin) euclid (frame_tf c a (eval_arg g))) as [g1|e] eqn:E; [|reflexivity].
   cbn [bind]. eapply relocate_arg_idempotent. exact E.
 Qed.
+
+(* ====================================================================== part 5: native storage *)
+Section Native.
+  Context {O : NumOps}.
+  Notation T := (T O).
+
+  Lemma slim_by_native_by {A} (junk : A) (bits : list bool) (v : list A) :
+    length v = count1 bits -> slim_by bits (native_by junk bits v) = v.
+  Proof.
+    unfold count1. revert v; induction bits as [|b bits IH]; intros v H; simpl in *.
+    - destruct v; [reflexivity | discriminate].
+    - destruct b; simpl in *.
+      + apply IH; auto.
+      + destruct v as [|a v]; [discriminate|]. simpl. f_equal. apply IH. simpl in H. lia.
+  Qed.
+  Lemma native_by_length {A} (junk : A) (bits : list bool) (v : list A) : length (native_by junk bits v) = length bits.
+  Proof. revert v; induction bits as [|b bits IH]; intros v; simpl; auto. destruct b; simpl; [|destruct v; simpl]; rewrite IH; auto. Qed.
+  Lemma slim_by_map {A B} (h : A -> B) (bits : list bool) (v : list A) : slim_by bits (map h v) = map h (slim_by bits v).
+  Proof. revert v; induction bits as [|b bits IH]; intros [|a v]; simpl; auto. destruct b; simpl; rewrite IH; auto. Qed.
+  Lemma slim_by_length {A} (bits : list bool) (v : list A) : length v = length bits -> length (slim_by bits v) = count1 bits.
+  Proof.
+    unfold count1. revert v; induction bits as [|b bits IH]; intros [|a v] H; simpl in *; try discriminate; auto.
+    destruct b; simpl; rewrite IH; auto.
+  Qed.
+  Lemma slim_by_unmasked_of {A} (bits : list bool) (v : list A) : slim_by bits v = unmasked_of bits v.
+  Proof.
+    unfold unmasked_of. revert v; induction bits as [|b bits IH]; intros [|a v]; simpl; auto.
+    destruct b; simpl; rewrite IH; auto.
+  Qed.
+
+  (* a natively stored Grid1D is the slim Grid1D with the same unmasked entries, whatever the masked entries hold:
+     every decorator treats the two alike *)
+  Lemma grid1d_native_is_slim (m : @mask1 O) (xs : list T) (junk : T) :
+    length xs = count1 (bits1 m) -> grid1d_of_native m (native_by junk (bits1 m) xs) = G1D m xs.
+  Proof. intros H. unfold grid1d_of_native. rewrite slim_by_native_by; auto. Qed.
+  Lemma grid2d_native_is_slim (m : @mask2 O) (cs : list (@pt O)) (junk : @pt O) :
+    length cs = count2 (bits2 m) -> grid2d_of_native m (native_by junk (concat (bits2 m)) cs) = G2D m cs.
+  Proof. intros H. unfold grid2d_of_native. rewrite slim_by_native_by; auto. Qed.
+
+  (* to_array on a natively stored Grid2D, pointwise function written for native grids: entry k of the returned Array2D
+     is h at the k-th unmasked pixel's coordinate; the masked entries of the array never reach the result *)
+  Lemma native_grid2d_pointwise (h : @pt O -> T) (m : @mask2 O) (nc : list (@pt O)) :
+    length nc = length (concat (bits2 m)) ->
+    maker_result_native ToArray (fun g => Ok (One (Vals (map h (coords_of g))))) m nc
+    = Ok (OOne (Array2D m (map h (slim_by (concat (bits2 m)) nc)))).
+  Proof.
+    intros L. unfold maker_result_native. simpl. rewrite map_length, L, Nat.eqb_refl.
+    unfold grid2d_of_native. simpl. unfold mk_array2d.
+    rewrite slim_by_map, map_length, slim_by_length; auto.
+    unfold count2, count1. rewrite Nat.eqb_refl. reflexivity.
+  Qed.
+  Lemma native_grid2d_pointwise_pairs (d : maker) (h : @pt O -> @pt O) (m : @mask2 O) (nc : list (@pt O)) :
+    d <> ToArray -> length nc = length (concat (bits2 m)) ->
+    maker_result_native d (fun g => Ok (One (Pairs (map h (coords_of g))))) m nc
+    = Ok (OOne (match d with
+                | ToVector => Vector2D m (slim_by (concat (bits2 m)) nc) (map h (slim_by (concat (bits2 m)) nc))
+                | _ => Grid2D m (map h (slim_by (concat (bits2 m)) nc))
+                end)).
+  Proof.
+    intros Hd L. unfold maker_result_native. simpl. rewrite map_length, L, Nat.eqb_refl.
+    unfold grid2d_of_native.
+    assert (E : length (slim_by (concat (bits2 m)) nc) = count2 (bits2 m)) by (rewrite slim_by_length; auto).
+    destruct d; try congruence; simpl; unfold mk_grid2d, mk_vector2d;
+      rewrite slim_by_map, map_length, E, Nat.eqb_refl; reflexivity.
+  Qed.
+End Native.
+
+(* ====================================================================== part 6: histories *)
+Section Histories.
+  Variable cen : @mask2 QOps -> list ptQ.
+  Variable chk : callc -> gspec -> bool.
+
+  (* the contents of the grid objects after a prefix of the history: nothing but the user's edits changes them *)
+  Fixpoint state_after (gs : list gspec) (l : list hstep) : list gspec :=
+    match l with
+    | [] => gs
+    | HCall _ _ _ :: t => state_after gs t
+    | HEdit gi k p :: t =>
+        match nth_error gs gi with
+        | Some s => state_after (set_nth gi (edit cen s k p) gs) t
+        | None => gs
+        end
+    end.
+
+  (* an accepted history: every call, taken as a single call on the contents current at that moment, is accepted, and it
+     left the array of its grid as it was *)
+  Lemma hist_ok_calls (l : list hstep) : forall (gs : list gspec) (i gi : nat) (c : callc) (post : list ptQ),
+    hist_ok cen chk gs l = true -> nth_error l i = Some (HCall gi c post) ->
+    exists s, nth_error (state_after gs (firstn i l)) gi = Some s
+              /\ chk c s = true /\ list_eqb peq (stored cen s) post = true.
+  Proof.
+    induction l as [|st l IH]; intros gs i gi c post H N.
+    - destruct i; discriminate.
+    - destruct i as [|i].
+      + simpl in N. injection N as ->. simpl in H. simpl.
+        destruct (nth_error gs gi) as [s|]; [|discriminate].
+        apply andb_prop in H as [H _]. apply andb_prop in H as [H1 H2]. exists s. auto.
+      + simpl in N. destruct st as [gj c' post'|gj k p]; simpl in H |- *.
+        * apply andb_prop in H as [_ H]. eapply IH; eauto.
+        * destruct (nth_error gs gj) as [s|]; [|discriminate]. eapply IH; eauto.
+  Qed.
+  (* and conversely *)
+  Lemma hist_ok_intro (l : list hstep) : forall (gs : list gspec),
+    (forall i gi k p, nth_error l i = Some (HEdit gi k p) -> nth_error (state_after gs (firstn i l)) gi <> None) ->
+    (forall i gi c post, nth_error l i = Some (HCall gi c post) ->
+       exists s, nth_error (state_after gs (firstn i l)) gi = Some s
+                 /\ chk c s = true /\ list_eqb peq (stored cen s) post = true) ->
+    hist_ok cen chk gs l = true.
+  Proof.
+    induction l as [|st l IH]; intros gs HE HC; simpl; auto.
+    destruct st as [gj c post|gj k p].
+    - destruct (HC 0%nat gj c post eq_refl) as [s [N [C P]]]. simpl in N. rewrite N, C, P. simpl.
+      apply IH.
+      + intros i gi k p Hn. apply (HE (S i) gi k p Hn).
+      + intros i gi c' post' Hn. apply (HC (S i) gi c' post' Hn).
+    - pose proof (HE 0%nat gj k p eq_refl) as N. simpl in N.
+      destruct (nth_error gs gj) as [s|] eqn:E; [|congruence].
+      apply IH.
+      + intros i gi k' p' Hn. specialize (HE (S i) gi k' p' Hn). simpl in HE. rewrite E in HE. exact HE.
+      + intros i gi c' post' Hn. specialize (HC (S i) gi c' post' Hn). simpl in HC. rewrite E in HC. exact HC.
+  Qed.
+End Histories.
+
+(* the verdict on a history is the verdict on its single calls, each on the contents the user left in the grid *)
+Lemma agree_hist_calls e gs l i gi c post :
+  agree (KHist e gs l) = true -> nth_error l i = Some (HCall gi c post) ->
+  exists s, nth_error (state_after (@grid_via_mask QOps) gs (firstn i l)) gi = Some s
+            /\ agree_call (unit_of e) c s = true /\ list_eqb peq (stored (@grid_via_mask QOps) s) post = true.
+Proof. intros H N. eapply hist_ok_calls; eauto. Qed.
+Lemma spec_ok_hist_calls e gs l i gi c post :
+  spec_ok (KHist e gs l) = true -> nth_error l i = Some (HCall gi c post) ->
+  exists s, nth_error (state_after (@spec_centres QOps) gs (firstn i l)) gi = Some s
+            /\ spec_ok_call (unit_of e) c s = true /\ list_eqb peq (stored (@spec_centres QOps) s) post = true.
+Proof. intros H N. eapply hist_ok_calls; eauto. Qed.
